@@ -94,6 +94,8 @@ pub fn oracle(s: &ProgScene<X>, t: &Trace) -> Vec<Violation> {
     let failing = term.is_some() && (stopped_exit.is_none() || an.role_failed(0, &s.roles[0].started));
     let _ = s.extra.failing;
 
+    // (an attached stream that ends is an end of its own: it does not drain the mailbox)
+    let stream_ends = matches!(s.attach, crate::progscene::Attach::Stream { close: true, .. });
     if !failing {
         for (c, cs) in s.clients.iter().enumerate() {
             for (i, op) in cs.ops.iter().enumerate() {
@@ -107,7 +109,7 @@ pub fn oracle(s: &ProgScene<X>, t: &Trace) -> Vec<Violation> {
                 // a call through an Addr is in the mailbox after the first poll of its future
                 // (the non-waiting path); a caller that then gives up has still submitted it
                 if let (Op::CallAbandon(H::Addr(_), _), Some(Res::Abandoned), Some(end), Some(fs)) = (op, o.res, o.end, first_stop_begin) {
-                    if end < fs {
+                    if end < fs && !stream_ends {
                         crate::check::oblige("drain-before-stop");
                         if !handled {
                             out.push(Violation {
@@ -121,7 +123,7 @@ pub fn oracle(s: &ProgScene<X>, t: &Trace) -> Vec<Violation> {
                 }
                 let is_call = matches!(op, Op::Call(..));
                 // (a) submitted (completed, accepted) before any stop request was issued
-                if let (Some(end), Some(fs)) = (o.end, first_stop_begin) {
+                if let (Some(end), Some(fs), false) = (o.end, first_stop_begin, stream_ends) {
                     let accepted_msg = if is_call { true } else { o.ok() };
                     if end < fs && accepted_msg {
                         crate::check::oblige("drain-before-stop");
@@ -423,8 +425,17 @@ fn cases(tier: Tier) -> Vec<Case> {
         c.exec.select_choice = false;
         c
     }));
-    // ... and (every fourth case; thorough: every second) once more under a configuration that must
-    // not matter: a handler timeout nothing comes near, and the recreate strategy
+    // ... and attached to a stream that *ends* at once, without an item (every fifth case;
+    // thorough: every second): the end of the stream ends the actor too - it does not drain the
+    // mailbox, so "everything accepted before the stop is handled" is not required there, but
+    // the barrier is: nothing submitted after an accepted stop is handled, whichever end wins
+    let step = if tier == Tier::Thorough { 2 } else { 5 };
+    let sc = crate::progscene::with_stream_variant_closing(vec![], || plain_cases(tier));
+    v.extend(sc.into_iter().enumerate().filter(|(i, c)| i % step == 2 % step && !c.desc.contains("failing=true")).map(|(_, mut c)| {
+        c.desc = c.desc.replacen("[stream loop]", "[stream loop, the stream ends at once]", 1);
+        c.bound = c.bound.or(Some(if tier == Tier::Thorough { 5 } else { 3 }));
+        c
+    }));
     // ... and with a handler timeout shorter than the stopped() hook (every sixth case; thorough:
     // every second), carrying on or failing on a timeout - no handler ever times out
     for fail in [false, true] {
